@@ -1,8 +1,9 @@
 /-
 `Persistence.save` / `Persistence.load` (`src/aiomysensors/persistence.py`) at the level of JSON
-values.  Text ↔ value (`json.dumps(sort_keys=True, indent=2)` / `json.loads`) is trusted and not
-modelled: `save` lists nodes, children and values in the registry's insertion order, whereas the
-file has them sorted by key; observations are therefore compared as Python compares dicts
+values.  Text ↔ value (`json.dumps(sort_keys=True, indent=2)` / `json.loads`) is modelled
+separately in `Model/JsonText.lean` (`render`, `parse`, `saveSorted`, `saveText`, `classify`).
+Here `save` lists nodes, children and values in the registry's insertion order, whereas the file
+has them sorted by key; observations at this level are therefore compared as Python compares dicts
 (order-insensitive on the save side, file order on the load side).
 
 `load` is two `try` blocks.  The first (open, read, `json.loads`) has the generated clauses
